@@ -208,6 +208,8 @@ def gen_edit(rng, snap, fresh, malformed=False):
         m_ = int(np.prod([cur_shape[x] for x in lv(o)])) if lv(o) else 1
         n_ = int(np.prod([cur_shape[x] for x in lv(i)])) if lv(i) else 1
         bond = min(m_, n_) + rng.choice([0, 0, 1])
+        if kind == 0 and mode == "full" and m_ > 256:
+            mode = "reduced"      # a complete QR of an m x m matrix with m in the thousands is a memory test, not a structural one
         if malformed:
             which = rng.randrange(3)
             if which == 0 and opens:
